@@ -2,14 +2,58 @@
 
 package reader
 
-import "github.com/containerd/stargz-snapshotter/cache"
+import (
+	"reflect"
+	"unsafe"
+
+	"github.com/containerd/stargz-snapshotter/cache"
+)
 
 // Export shim for the C02/C15 harnesses (injected with `go build -overlay`, never committed).
-// It only ADDS code: access to the chunk cache of a VerifiableReader and to the cache key.
+// It only ADDS code.  The chunk cache of a VerifiableReader is located by its TYPE (the first field
+// of interface type cache.BlobCache reachable from vr), not by field names, so a rename inside the
+// reader does not break the build of every harness that links this package; genID is the one
+// unexported identifier used by name.
 
-// VerifC02WrapCache replaces the uncompressed chunk cache of vr by wrap(current cache).
-func VerifC02WrapCache(vr *VerifiableReader, wrap func(cache.BlobCache) cache.BlobCache) {
-	vr.r.cache = wrap(vr.r.cache)
+// VerifC02WrapCache replaces the uncompressed chunk cache of vr by wrap(current cache); it reports
+// whether the cache field was found.
+func VerifC02WrapCache(vr *VerifiableReader, wrap func(cache.BlobCache) cache.BlobCache) bool {
+	want := reflect.TypeOf((*cache.BlobCache)(nil)).Elem()
+	type item struct {
+		v reflect.Value
+		d int
+	}
+	seen := map[uintptr]bool{}
+	queue := []item{{reflect.ValueOf(vr), 0}}
+	for len(queue) > 0 {
+		it := queue[0]
+		queue = queue[1:]
+		v := it.v
+		if !v.IsValid() || it.d > 4 {
+			continue
+		}
+		if v.Type() == want && v.CanSet() && !v.IsNil() {
+			v.Set(reflect.ValueOf(wrap(v.Interface().(cache.BlobCache))))
+			return true
+		}
+		switch v.Kind() {
+		case reflect.Ptr:
+			if v.IsNil() || seen[v.Pointer()] {
+				continue
+			}
+			seen[v.Pointer()] = true
+			queue = append(queue, item{v.Elem(), it.d})
+		case reflect.Struct:
+			for i := 0; i < v.NumField(); i++ {
+				f := v.Field(i)
+				if f.CanAddr() {
+					f = reflect.NewAt(f.Type(), unsafe.Pointer(f.UnsafeAddr())).Elem()
+				}
+				queue = append(queue, item{f, it.d + 1})
+			}
+		}
+	}
+	return false
 }
 
 // VerifC02GenID is the key under which chunk (offset,size) of node id is cached.
